@@ -26,7 +26,9 @@ for p in props:
 
 You work ONLY inside this git worktree: `%(w)s` (a checkout of gcarq/rusty-blockparser, a CLI that parses
 Bitcoin-family blk*.dat files and the LevelDB block index and dumps blocks, transactions, UTXOs and balances).
-Do not read or write anything under /verif or /repo. The machine is offline: `cargo build --offline`, `cargo test --offline`.
+Do not read or write anything under /verif or /repo. Do not use `git stash` (the stash is shared
+between worktrees and other people work in sibling worktrees): to get a pristine tree use `git checkout -- . && git clean -fdq -- src tests`
+and re-apply your diffs from `seed/`. The machine is offline: `cargo build --offline`, `cargo test --offline`.
 The repository's own test suite (41 tests, `cargo test --offline`) passes on this checkout.
 
 ## The property (id %(pid)s)
